@@ -12,7 +12,7 @@ CHECKS = {
    "Liveness restated as bounded progress: after a seeded hostile history (template edits, holds, node churn, misbehaving kubelet, partial rollouts, old-DaemonSet start state) the actors stop, the cooperative kubelet runs and a fixpoint (one Ready live-template pod per eligible node, nothing else, no further pod/RS writes for three rounds) must be reached within 12+4*N*(1+edits) rounds (canary wait durations are fast-forwarded, Failed-pod back-off emptied by a controller restart: waiting is not progress). A second engine (schedule E) replaces the round-robin by the repository's own watch handlers and a recording work queue: after one initial enqueue only watch events, requeues and error retries trigger reconciles, and the fixpoint must be reached by a virtual deadline.",
    T+"an unbounded 'eventually' is not decidable by observation; canaries whose replicas cannot be satisfied by the valid nodes are excluded (premise), counted in evidence.", "4/C02"),
  "C03": ("exploration", "differential oracle over real ManageDeployment outputs (exhaustive small multisets, repeated for map order) + budget monitor on every active-role sync of the simulator",
-   "Every multiset of the seven node classes for N<=4 (quick) / N<=5 (thorough) and seeded multisets up to N=12, times the maxUnavailable/maxPodSchedulerFailure lattice, each executed 12/24 times through the real ManageDeployment at a virtual instant, in half of the cases with selector-matched nodes the daemonset does not target; budget, cap and unavailable-first judged by an independent oracle. Two simulator engines (schedules S and N) judge budget and cap on every real active-role sync of rolling-update-heavy histories with tainted and canary-reserved nodes.",
+   "Every multiset of the seven node classes (unavailable pods are Ready=False or Ready=Unknown) for N<=4 (quick) / N<=5 (thorough) and seeded multisets up to N=12, times the maxUnavailable/maxPodSchedulerFailure lattice, each executed 12/24 times through the real ManageDeployment at a virtual instant, in half of the cases with selector-matched nodes the daemonset does not target; budget, cap and unavailable-first judged by an independent oracle. Two simulator engines (schedules S and N) judge budget and cap on every real active-role sync of rolling-update-heavy histories with tainted and canary-reserved nodes.",
    T+"the oracle's reading of 'available' (Ready) and of the stuck-node tolerance; map-order coverage is sampled by repetition.", "4/C03"),
  "C04": ("exploration", "runtime monitors over invocation records during generated canary histories",
    "Canary-heavy seeded histories (second template change during a canary, replicas as number/percent, node churn, pause/unpause/fail/validate commands, all reconcile orders): every pod create by a non-active up-to-date replica set must target a node of status.canary.nodes as read; the active replica set must not create/delete on canary nodes; canary list growth bounded by the resolved replicas; canary label present on canary pods while the canary runs (nobody but the canary replica set itself may take it away: every applied pod patch is judged from its stored before/after images) and gone at the post-promotion fixpoint; a steady-state phase (manual validation) checks that canary nodes run the new template, every other eligible node keeps a Ready pod of the active template, and nothing of the new template leaks outside status.canary.nodes; schedule N nests other reconciles inside a running one.",
@@ -21,7 +21,7 @@ CHECKS = {
    "The full product of the quantifier (strategy x age vs duration x noRestartsDuration x last restart x pause source x unpause x canary-valid x failed x active present) is enumerated; a switch of status.activeReplicaSet is judged against promotionAllowed (must / must-not / either at the stated equalities).",
    T+"the equality points (age = duration, since-restart = noRestartsDuration) are not judged.", "4/C05"),
  "C06": ("exploration", "differential oracle (canaryVerdict) over the real manageCanaryStatus via verif shim; second call for stickiness; failed-canary-creates-nothing monitor on real canary syncs of the simulator; store-level stickiness monitor (no write ever takes Canary-Failed away from a replica set that is still the canary) under atomic and nested schedules",
-   "200k (quick) / 2.4M (thorough) seeded canary situations, boundary-complete per dimension (restart counts at/around both thresholds, all 11 cannot-start reasons, ContainerCreating, unrelated reasons, start age before/at/after maxSlowStartDuration, spans and ages at/around their limits, enabled flags, previous conditions, annotations).",
+   "200k (quick) / 2.4M (thorough) seeded canary situations, boundary-complete per dimension (restart counts at/around both thresholds, all 11 cannot-start reasons, ContainerCreating, unrelated reasons, start age before/at/after maxSlowStartDuration, spans and ages at/around their limits, enabled flags, previous conditions, annotations); further calls on the produced status check that a failure stays and that the first observed restart is not forgotten by a sync without restarting pods.",
    T+"Paused is don't-care once failed ('otherwise' in the statement).", "4/C06"),
  "C07": ("exploration", "runtime monitors on EDS reconciles that read a Canary-Failed replica set + rollback fixpoint and retention phase; fault points are covered by C11's failure-and-rollback scenario",
    "Seeded histories ending in failure (restart storms, kubectl-eds canary fail, while paused or not, before/after the duration elapsed): the rollback writes (spec restored, status.canary cleared, active unchanged) are judged on the invocation, retention (>= 2 min, zero counters) on every delete of a failed replica set, the failure mark never taken away from a replica set that is still the canary (also when kubectl-eds canary fail lands inside a running sync), nodes restored and failed RS collected at the convergence fixpoint.",
@@ -30,16 +30,16 @@ CHECKS = {
    "Hold-heavy seeded histories (annotations toggled directly and through the real kubectl-eds bodies, new nodes joining): an active-role sync that read rolling-update-paused=true issues no update deletion, with rollout-frozen=true neither creates nor update-deletes; a canary-role sync that read a paused canary creates nothing; state equals the documented function; resumption is part of the convergence phase. Scripted hold scenarios (paused, frozen, both, canary paused before/after its pods; seeded sizes, modes and orders) judge what must still happen while held (pods for nodes that join while only paused), what must not, and resumption within the round bound after the release.",
    T+"'as read' = annotations on the EDS object returned to that sync.", "4/C08"),
  "C09": ("exploration", "differential oracle (rampBound) over calculateMaxCreation via shim and over ManageDeployment's create decisions + spacing monitor in the simulator",
-   "Product of elapsed x interval x additive increase x maxParallelPodCreation x nodes at exact instants; creates of a sync bounded by rampBound measured from the Active condition of the status it was given; spacing of acting syncs >= reconcileFrequency-1s, at most maxUnavailable update deletions per sync the creation ramp (measured from the Active condition the sync read) and the transition time recorded whenever a status write turns Active true, judged on every simulated history (incl. failing pod calls and bursts of reconciles).",
+   "Product of elapsed x interval x additive increase x maxParallelPodCreation x nodes at exact instants; creates of a sync bounded by rampBound measured from the Active condition of the status it was given; spacing of syncs that create or delete pods (clean-up deletions included) >= reconcileFrequency-1s, at most maxUnavailable update deletions per sync the creation ramp (measured from the Active condition the sync read) and the transition time recorded whenever a status write turns Active true, judged on every simulated history (incl. failing pod calls and bursts of reconciles).",
    T+"non-positive intervals belong to C16.", "4/C09"),
  "C10": ("exploration", "differential oracle over CreatePodFromDaemonSetReplicaSet + compareCurrentPodWithNewPod round trip and single perturbations; input replica set compared with a deep copy after every call; monitors on real syncs of simulated histories with node override annotations and ExtendedDaemonsetSettings that change while pods exist: resources precedence of every created pod against what the sync read, no update deletion of an own pod whose creation inputs read the same, no outdated pod left at the fixpoint, labels/namespace",
-   "20k (quick) / 200k (thorough) seeded (template, node, setting, mode) tuples: pinning in every affinity term, owner, labels, hash, default tolerations, resources precedence, wire round trip judged up to date, every single perturbation judged outdated. Simulator engines (schedules S and N): overrides and settings created, edited and removed by the user, the setting controller interleaved, several pods per sync; rules resources-precedence, spurious-replace, outdated-recognised (fixpoint).",
+   "20k (quick) / 200k (thorough) seeded (template, node, setting, mode) tuples: pinning in every affinity term (also read back with the controller's own GetNodeNameFromPod), owner, labels, hash, default tolerations, resources precedence, wire round trip judged up to date, every single perturbation judged outdated. Simulator engines (schedules S and N): overrides and settings created, edited and removed by the user, the setting controller interleaved, several pods per sync; rules resources-precedence, spurious-replace, outdated-recognised (fixpoint).",
    T+"a malformed annotation is expected to fall through to setting/template; its being reported is not part of the statement.", "4/C10"),
  "C11": ("fault_enumeration", "fault injection at the client seam: every API call index x {reject, lost reply, stop before, stop after}; safety monitors at every step (per-invocation rules against what the reconcile read, a store-level one-live-pod-per-node invariant compared with the failure-free run, and no create/delete after a refused read), final abstract state compared with the failure-free run",
    "Ten corpus scenarios; the failure-free run is recorded, then re-run once per (call index, fault kind); stop faults void the rest of the invocation and rebuild all reconcilers with empty in-memory state; thorough adds 20k seeded fault pairs.",
    T+"process stop is emulated by voiding later calls of the invocation rather than killing goroutines.", "4/C11"),
  "C12": ("exploration", "runtime monitors: every write of every invocation must target an object of the EDS being reconciled; foreign objects never counted/adopted",
-   "Two or three ExtendedDaemonSets (same/different names and namespaces), unrelated pods and DaemonSets with overlapping labels, rollouts and canaries in all interleavings; ownership judged per write from the invocation's own reads; each ExtendedDaemonSet also has its own node override annotations and ExtendedDaemonsetSettings, and a created pod whose resources came from those of another ExtendedDaemonSet is a violation (foreign-object-influence).",
+   "Two or three ExtendedDaemonSets (same/different names and namespaces, also names that only differ after the 63rd character), a look-alike pod of a StatefulSet named like the old DaemonSet, unrelated pods and DaemonSets with overlapping labels, rollouts and canaries in all interleavings; ownership judged per write from the invocation's own reads; each ExtendedDaemonSet also has its own node override annotations and ExtendedDaemonsetSettings, and a created pod whose resources came from those of another ExtendedDaemonSet is a violation (foreign-object-influence).",
    T+"ownership = namespace + name label / owner reference as stated.", "4/C12"),
  "C13": ("exploration", "runtime monitors on replica-set creates/deletes and PodTemplate reconciles during edit-heavy histories",
    "Edit sequences over {A,B,C,+selector variants, +variants that differ only in the order of the env list} incl. A-B-A and edits during canaries, with rejected and lost replica-set creates/deletes, all reconcile orders: no second replica set for a template while one exists, created RS faithful to spec.template with a consistent hash chain down to pods, never delete the active/up-to-date RS, delete only with zero counters as read, PodTemplate equals spec.template and carries the RS hash.",
@@ -54,10 +54,10 @@ CHECKS = {
    "127k lattice points (full product of the canary key fields and of the rolling-update fields) and 600 (quick) / 6000 (thorough) life-cycle scenarios (deploy, template change, canary, promotion) with hostile specs; any panic, non-idempotence, lost user value or accepted-but-must-reject spec is a violation. Simulator engines (atomic and nested schedules) add histories in which the user rewrites the strategy while rollouts and canaries run (canary block removed or added, original undefaulted manifest re-applied): any reconcile panic is a violation.",
    T+"the fuzzing engine (thorough tier, 400000 executions) uses the Go fuzzer's own unseedable random source, so that part is not a function of VERIF_SEED; a failing input is stored in the replay file.", "4/C16"),
  "C17": ("exploration", "Go race detector (-race build, halt_on_error=0, report blocks counted and de-duplicated) + conservation-of-errors monitor with unique error ids + condition reflection on real syncs",
-   "Helper batches 2..64 x failure plans with jitter at the client seam (nodes with settings, override annotations, and - without scheme - malformed overrides that make pod generation itself fail; a batch that does not return is a violation); real replica-set syncs (active and canary role) with failing pod calls; the four reconcilers, kubelet and user concurrently on one store with 0/10/100% failing pod calls.",
+   "Helper batches 2..64 x failure plans with jitter at the client seam (nodes with settings, override annotations, and - without scheme - malformed overrides that make pod generation itself fail; a batch that does not return is a violation); real replica-set syncs (active and canary role) with failing pod calls and, in a third of them, a pod removed by someone else just before its Delete: the sync must report the failure and write the condition; the four reconcilers, kubelet and user concurrently on one store with 0/10/100% failing pod calls.",
    T+"the Go race detector only sees the interleavings that occur.", "4/C17"),
  "C18": ("exploration", "differential oracle over the real setting reconciler in every reconcile order of each population + observation of the settings a replica-set sync attaches; at fixpoints of simulated histories with settings: at most one valid setting per node, none valid without a reference, created pods only influenced by valid settings",
-   "1.5k (quick) / 12k (thorough) populations of <=4 settings x <=4 nodes, all <=24 orders, two passes: mutual exclusion, malformed in error with text, lone well-formed valid, only valid settings influence created pods.",
+   "1.5k (quick) / 12k (thorough) populations of <=4 settings x <=4 nodes, all <=24 orders, two passes plus a pass in which the node listing of one reconcile is refused (that reconcile must not publish valid) and a recovery pass: mutual exclusion, malformed in error with text, lone well-formed valid, only valid settings influence created pods.",
    T+"settings of other namespaces never conflict.", "4/C18"),
  "C19": ("exploration", "whole-store diff monitor around the real kubectl-eds command bodies on every reachable state + interpretation by following reconciles; command-heavy simulated histories with commands landing inside running reconciles (nested schedule): a successful canary fail is never lost",
    "Eight reachable states x command sequences of length <=3 (all 584 per state in thorough) x optional template edit: documented change only, refusal without change when the precondition fails, no refusal of the command the situation calls for when the precondition holds, pause -> Canary Paused, unpause -> Canary, validate promotes exactly the then-canary RS, fail -> rollback.",
